@@ -78,6 +78,10 @@ def run(ctx):
     rep.rule("TMR-2", "periodic senders re-arm their own timer on every return path of their active state", floor=5)
     rep.rule("TMR-3", "initial announce-receipt timer request exists and end_bmca returns pending_action", floor=2)
     rep.rule("TMR-4", "multiport-disable age written back = old age + step", floor=1)
+    rep.rule("TMR-5", "end_bmca hands out the timer requests recorded during the BMCA (lifecycle.pending_action) and "
+                      "start_bmca/end_bmca keep port_state, config and multiport_disable", floor=2)
+    fc.check_lifecycle_transfer(rep, prog, "TMR-5", fields={"port_state", "config", "multiport_disable"},
+                                check_pending=True)
 
     # ---- TMR-1
     rows = fsm.transitions(prog)
